@@ -143,6 +143,17 @@ def scripts(tier, seed, scale=1):
                         lines += ["c dreply 0 4444", "c dreply 0 none"]
                     lines.append("%s close" % v)
                     out.append(("%sf:%d/%s" % (v, w, "+".join(a.split(":")[0] + str(len(a)) for a in seq)), lines))
+    # messages shorter than the id header (incl. the empty message), between ordinary requests
+    for v in ("s", "c", "cd"):
+        for w in (1, 2, 3, 9):
+            opn = "c open %d dgram" % w if v == "cd" else "%s open %d" % (v, w)
+            p = "c" if v == "cd" else v
+            idh = gen.hexs([0] * (w - 1) + [5])
+            lines = [opn, "%s req %s7a reply:41" % (p, idh)]
+            for short in ["-"] + [gen.hexs([0] * k) for k in range(1, w)] + ([gen.hexs([0] * (w - 2) + [5])] if w > 1 else []):
+                lines += ["%s req %s reply:42,ret:0" % (p, short), "%s req %s discard" % (p, short), "%s req %s7b ret:-4" % (p, idh)]
+            lines.append("%s close" % p)
+            out.append(("short:%s/%d" % (v, w), lines))
     # a stream that cannot be written (no transport to answer on): handlers run without reply context; the other
     # interfaces of the stream input (conversions, references, clone)
     for w in (0, 1, 2, 9):
